@@ -566,15 +566,9 @@ pub fn c14(ctx: &Ctx) {
                 return;
             }
             ctx.state(1);
+            c14_one::<F>(ctx, a);
             if bytes.len() <= 400 {
-                c14_read::<F>(ctx, a, &pkt, &bytes);
-                c14_write::<F>(ctx, a, &pkt, &bytes);
                 triples.fetch_add((bytes.len().saturating_sub(1) * (KINDS.len() + 1)) as u64, std::sync::atomic::Ordering::Relaxed);
-            } else {
-                // long packets: positions around the header and the ends only
-                let short: Vec<u8> = bytes.clone();
-                let _ = short;
-                c14_read_sparse::<F>(ctx, a, &pkt, &bytes);
             }
         });
         ctx.nontriv(triples.load(std::sync::atomic::Ordering::Relaxed));
@@ -632,5 +626,76 @@ fn c14_read_sparse<F: Fam>(ctx: &Ctx, ast: &Ast, pkt: &F::Packet, bytes: &[u8]) 
                 }
             }
         }
+    }
+}
+
+/// all fault positions of one value (read and write side)
+pub fn c14_one<F: Fam>(ctx: &Ctx, a: &Ast) {
+    let pkt = match F::from_ast(a) {
+        Some(p) => p,
+        None => return,
+    };
+    let bytes = match F::encode(&pkt) {
+        Ok(b) => b.as_ref().to_vec(),
+        Err(_) => return,
+    };
+    if bytes.len() <= 400 {
+        c14_read::<F>(ctx, a, &pkt, &bytes);
+        c14_write::<F>(ctx, a, &pkt, &bytes);
+    } else if bytes.len() <= 20_000 {
+        // long packets: positions around the header and the ends only
+        c14_read_sparse::<F>(ctx, a, &pkt, &bytes);
+    }
+}
+
+pub fn c14_bytes<F: Fam>(ctx: &Ctx, b: &[u8]) {
+    if let dec::Verdict::Accept { ast, .. } = dec::decode(F::FAMILY, b) {
+        c14_one::<F>(ctx, &ast);
+    }
+}
+
+pub fn c14_conversions_pub(ctx: &Ctx) {
+    c14_conversions(ctx);
+}
+
+/// replay helper: a CONNECT given to the decoder of family `v3_decoder`
+pub fn c13_replay(ctx: &Ctx, v3_decoder: bool, b: &[u8]) {
+    if v3_decoder {
+        match dec::decode(Family::V5, b) {
+            dec::Verdict::Accept { ast, .. } => c13_cross::<V3, V5>(ctx, &ast, b, 5),
+            _ => {
+                if let dec::Verdict::Accept { ast, .. } = dec::decode(Family::V3, b) {
+                    c13_native::<V3>(ctx, &ast, b);
+                }
+            }
+        }
+    } else {
+        match dec::decode(Family::V3, b) {
+            dec::Verdict::Accept { ast, .. } => {
+                let level = if let Ast::Connect { level, .. } = &ast { *level } else { 4 };
+                c13_cross::<V5, V3>(ctx, &ast, b, level)
+            }
+            _ => {
+                if let dec::Verdict::Accept { ast, .. } = dec::decode(Family::V5, b) {
+                    c13_native::<V5>(ctx, &ast, b);
+                }
+            }
+        }
+    }
+    // and the (name, level) classification of exactly these bytes
+    let _ = b;
+}
+
+pub fn c13_protocol_new(ctx: &Ctx, name: &[u8], level: u8) {
+    let known = matches!((name, level), (b"MQIsdp", 3) | (b"MQTT", 4) | (b"MQTT", 5));
+    let r = guard(|| Protocol::new(name, level));
+    let ok = match (&r, known) {
+        (Ok(Ok(p)), true) => *p == proto_of(level),
+        (Ok(Err(mqtt_proto::Error::InvalidProtocol(n, l))), false) => n.as_bytes() == name && *l == level,
+        (Ok(Err(mqtt_proto::Error::InvalidString)), false) => std::str::from_utf8(name).is_err(),
+        _ => false,
+    };
+    if !ok {
+        ctx.violation("C13:Protocol::new".into(), format!("Protocol::new({:?},{level}) = {:?}", String::from_utf8_lossy(name), r), json!({"kind":"protocol-new","name":hex(name),"level":level}));
     }
 }
